@@ -111,14 +111,13 @@ class YowInterfaceLayer(YowLayer):
         # if axolotlIface:
         #     axolotlIface.encryptMedia(builder)
 
-        iq = RequestUploadIqProtocolEntity(
-            builder.mediaType, filePath=builder.getFilepath(), encrypted=builder.isEncrypted())
+        iq = RequestUploadIqProtocolEntity(builder.mediaType, filePath=builder.getFilepath())
 
         def successFn(resultEntity, requestUploadEntity): return self.__onRequestUploadSuccess(
             resultEntity, requestUploadEntity, builder, success, error, progress)
 
         def errorFn(errorEntity, requestUploadEntity): return self.__onRequestUploadError(
-            errorEntity, requestUploadEntity, error)
+            errorEntity, requestUploadEntity, builder, error)
         self._sendIq(iq, successFn, errorFn)
 
     def __onRequestUploadSuccess(self, resultRequestUploadIqProtocolEntity, requestUploadEntity, builder, success, error=None, progress=None):
